@@ -653,6 +653,35 @@ static void fam_zz_gcd(void)
 	}
 }
 
+/* gcd of the form (2^k + 1) 2^s: the power of two that the binary algorithm splits off crosses word boundaries
+   and the top word of the gcd is smaller than 2^(s mod B_PER_W) for some (k, s) */
+static void fam_zz_gcd_shifted(void)
+{
+	const size_t W = B_PER_W;
+	const size_t KS[] = { 1, W / 2 - 1, W - 6, W - 5, W - 2, W - 1, W, 2 * W - 5, 2 * W - 1 };
+	const size_t SS[] = { 1, 5, W - 1, W, W + 5, 2 * W - 1 };
+	static const word XY[][2] = { {3, 5}, {1, 1}, {1, 3}, {7, 2} };
+	size_t ki, si, ci; num a, b;
+	for (ki = 0; ki < COUNT_OF(KS); ++ki) for (si = 0; si < COUNT_OF(SS); ++si) for (ci = 0; ci < (THOROUGH ? 4u : 2u); ++ci)
+	{
+		size_t k = KS[ki], sh = SS[si], n = (k + 1 + sh + 3 + W - 1) / W, mn = n; char c2[256];
+		memset(a.v, 0, sizeof(a.v)); memset(b.v, 0, sizeof(b.v)); a.n = b.n = n;
+		wwSetBit(a.v, k + sh, 1); wwSetBit(a.v, sh, 1); wwCopy(b.v, a.v, n);
+		zzMulW(a.v, a.v, n, XY[ci][0]); zzMulW(b.v, b.v, n, XY[ci][1]);
+		snprintf(c2, sizeof(c2), "gcd=(2^k+1)2^s,k=%s,s=%s,cof=%u:%u", ki == 0 ? "1" : ki == 1 ? "W/2-1" : ki == 2 ? "W-6" : ki == 3 ? "W-5" : ki == 4 ? "W-2" : ki == 5 ? "W-1" : ki == 6 ? "W" : ki == 7 ? "2W-5" : "2W-1",
+			si == 0 ? "1" : si == 1 ? "5" : si == 2 ? "W-1" : si == 3 ? "W" : si == 4 ? "W+5" : "2W-1", (unsigned)XY[ci][0], (unsigned)XY[ci][1]);
+		set_fill(C, mn, 0x5A);
+		LB("zz", "zzGCD", "def"); jInt("n", n); jInt("m", n); LW("a", a.v, n); LW("b", b.v, n);
+		CALL(zzGCD(C, a.v, n, b.v, n, STACK)); LW("c", C, mn); LE_(c2, "none");
+		set_fill(C, 2 * n, 0x5A);
+		LB("zz", "zzLCM", "def"); jInt("n", n); jInt("m", n); LW("a", a.v, n); LW("b", b.v, n);
+		CALL(zzLCM(C, a.v, n, b.v, n, STACK)); LW("c", C, 2 * n); LE_(c2, "none");
+		set_fill(C, mn, 0x5A); set_fill(D, n, 0x5A); set_fill(E, n, 0x5A);
+		LB("zz", "zzExGCD", "def"); jInt("n", n); jInt("m", n); LW("a", a.v, n); LW("b", b.v, n);
+		CALL(zzExGCD(C, D, E, a.v, n, b.v, n, STACK)); LW("d", C, mn); LW("da", D, n); LW("db", E, n); LE_(c2, "none");
+	}
+}
+
 /* Jacobi symbol with a shorter than b, fixed operands: a from the alphabet (1 word), b = 5*B + t (2 words), t odd */
 static void fam_zz_jacobi_short(void)
 {
@@ -1620,7 +1649,7 @@ int main(int argc, char** argv)
 #define WANT(f) (all || has(argc, argv, f))
 	for (i = 0; i < 1; ++i)
 	{
-		if (WANT("zz")) { fam_zz_add(); fam_zz_mul(); fam_zz_div(); fam_zz_gcd(); fam_zz_jacobi_short(); fam_zz_pow(); }
+		if (WANT("zz")) { fam_zz_add(); fam_zz_mul(); fam_zz_div(); fam_zz_gcd(); fam_zz_gcd_shifted(); fam_zz_jacobi_short(); fam_zz_pow(); }
 		if (WANT("mod")) fam_zz_mod();
 		if (WANT("red")) fam_zz_red();
 		if (WANT("ww")) fam_ww();
